@@ -58,6 +58,18 @@ def gen_state(rng, want=None, equal_gamma=False, pscale=1.0):
             rr = rl
         if kind in (0, 1) and du == 0.0:
             ur = ul + 0.3 * cl
+    elif want is None and rng.random() < 0.2:
+        # next to a boundary between two wave patterns: the velocity difference at which the left (p* = pl) or the right
+        # (p* = pr) wave has zero strength, from the exact pressure-velocity functions (Toro's f_K), offset by
+        # +-1e-9 ... 0.3 sound speeds - the solvers choose the pattern by comparing u_r - u_l with these values
+        def fK(p, pk, rk, gk):
+            ak = math.sqrt(gk * pk / rk)
+            if p > pk:
+                return (p - pk) * math.sqrt(2.0 / ((gk + 1.0) * rk) / (p + (gk - 1.0) / (gk + 1.0) * pk))
+            return 2.0 * ak / (gk - 1.0) * ((p / pk) ** ((gk - 1.0) / (2.0 * gk)) - 1.0)
+        dub = -fK(pr, pl, rl, gl) if rng.random() < 0.5 else -fK(pl, pr, rr, gr)
+        eps = (1.0 if rng.random() < 0.5 else -1.0) * float(rng.choice([1e-9, 1e-6, 1e-3, 0.01, 0.03, 0.1, 0.2, 0.3]))
+        ur = ul + dub + eps * (cl + cr)
     return dict(rl=rl, ul=ul, pl=pl, gl=gl, rr=rr, ur=ur, pr=pr, gr=gr)
 
 
